@@ -337,14 +337,17 @@ func faultClass(backend string, lines []string, faultAt int, kind string, base p
 	switch {
 	case inPlan:
 		return "change"
-	case l == "show hostname" || l == "hostname -s" || (backend == "IOS" && l == ""):
-		return "name_check" // the output is compared with the device name: inspected
-	case l == "write term" || l == "sh run" || l == "iptables-save" || l == "ip route show" ||
-		l == "get config" || l == "gateway-policies" || l == "services" || l == "groups" || strings.HasPrefix(l, "GET "):
-		return "retrieval"
 	case l == "write memory" || l == "commit" || l == "show jobs" ||
 		(l == "" && faultAt >= 2 && canonLine(backend, lines[faultAt-2]) == "write memory"):
 		return "save"
+	case l == "show hostname" || l == "hostname -s" ||
+		(backend == "IOS" && l == "" && faultAt >= 2 && canonLine(backend, lines[faultAt-2]) == "sh ver"):
+		return "name_check" // the name in front of the prompt is compared with the device name
+	case (backend == "ASA" || backend == "IOS") && l == "":
+		return "setup_or_show" // the empty answer to the password prompt of `enable`
+	case l == "write term" || l == "sh run" || l == "iptables-save" || l == "ip route show" ||
+		l == "get config" || l == "gateway-policies" || l == "services" || l == "groups" || strings.HasPrefix(l, "GET "):
+		return "retrieval"
 	case l == "echo $?" || l == "which iptables-restore" || strings.HasPrefix(l, "grep "):
 		return "probe"
 	case l == "keygen" || l == "show ha" || l == "session create":
@@ -484,6 +487,8 @@ func oracle(c CaseIn, o CaseOut, base, baseE plan) verdict {
 			cmd = canonLine(c.Scen.Backend, o.Lines[o.FaultAt-1])
 			if cls == "change" {
 				cmd = "<change>"
+			} else if cmd == "" {
+				cmd = "<empty>"
 			} else if strings.HasPrefix(cmd, "grep ") {
 				cmd = "grep"
 			} else if strings.HasPrefix(cmd, "GET ") || strings.HasPrefix(cmd, "PUT ") || strings.HasPrefix(cmd, "PATCH ") || strings.HasPrefix(cmd, "DELETE ") {
@@ -500,12 +505,14 @@ func oracle(c CaseIn, o CaseOut, base, baseE plan) verdict {
 			pred = "output_of_save_command_not_inspected_beyond_confirmation"
 		}
 		if c.FaultKind == "errtext" || c.FaultKind == "unexpected" || c.FaultKind == "garbled" {
-			switch cls {
-			case "setup_or_show", "preamble":
+			switch {
+			case cls == "setup_or_show", cls == "preamble",
+				cls == "name_check" && c.Scen.Backend == "IOS", // only the last line in front of the prompt is looked at
+				cls == "probe" && cmd == "grep": // only asked whether there is any output
 				pred = "output_of_setup_or_show_command_not_inspected"
-			case "retrieval":
+			case cls == "retrieval":
 				pred = "rejected_config_retrieval_parsed_as_configuration"
-			case "save":
+			case cls == "save":
 				pred = "output_of_save_command_not_inspected_beyond_confirmation"
 			}
 		}
